@@ -13,6 +13,12 @@ The clauses read the *log* (what the target saw), not the model's scheduler:
                alone (every operation once, in program order, with its own times and tags);
 * `tests-once` every outcome operation of a thread's program has exactly one block, in program order, which
                carries that outcome exactly once or ends in a call that raised before it;
+* `exclusive`  every call on the target - the control calls `startTestRun / stopTestRun / stop / done / shouldStop` like the
+               calls of a block - is made while the caller, and nobody else, is inside a section: a control call never lands
+               inside another thread's block (read off the raw log, thread by thread: an acquire that succeeded opens the
+               acquirer's section, a release closes the releaser's);
+* `sem-counter` the semaphore's COUNTER, read after every operation on it, is 0 after every acquire and 1 after every
+               release - never 2 - and 1 when everything is over: released exactly as often as acquired, by whom acquired;
 * `no-deadlock` every thread finished. -/
 namespace TTV.Spec.C12
 open TTV.Conc
@@ -28,6 +34,11 @@ def walk : Option (Nat × Section) → List Ev → Option (List (Nat × Section)
   | some (h, cur), (i, .call c b) :: r => if i = h then walk (some (h, cur ++ [(c, b)])) r else none
   | some (h, cur), (i, .rel) :: r => if i = h then (walk none r).map ((h, cur) :: ·) else none
   | some _, (_, .acq) :: _ => none
+  -- a non-blocking acquire that got the semaphore opens a section like a blocking one; one that did not get it is no section
+  -- (and whatever its caller then does without the semaphore is judged by the other cases)
+  | none, (i, .tryAcq true) :: r => walk (some (i, [])) r
+  | some _, (_, .tryAcq true) :: _ => none
+  | st, (_, .tryAcq false) :: r => walk st r
 
 def parse (log : List Ev) : Option (List (Nat × Section)) := walk none log
 
@@ -97,9 +108,22 @@ def cTestsOnce (i : Input) (t : Trace) : Bool :=
   | none => false
 def cNoDeadlock (_ : Input) (t : Trace) : Bool := t.finished
 
+/-- `ins` = the threads inside a section (one entry per successful acquire not yet followed by a release of the same thread) -/
+def exclusiveFrom : List Nat → List Ev → Bool
+  | _, [] => true
+  | ins, (i, .acq) :: r => exclusiveFrom (i :: ins) r
+  | ins, (i, .tryAcq true) :: r => exclusiveFrom (i :: ins) r
+  | ins, (_, .tryAcq false) :: r => exclusiveFrom ins r
+  | ins, (i, .rel) :: r => exclusiveFrom (ins.erase i) r
+  | ins, (i, .call _ _) :: r => ins == [i] && exclusiveFrom ins r
+
+def cExclusive (_ : Input) (t : Trace) : Bool := exclusiveFrom [] t.log
+
+def cSemCounter (_ : Input) (t : Trace) : Bool := t.sems == readings t.log && t.sem == 1
+
 def clauses : List (String × (Input → Trace → Bool)) :=
   [("mutex", cMutex), ("shape", cShape), ("per-thread", cPerThread), ("tests-once", cTestsOnce),
-   ("no-deadlock", cNoDeadlock)]
+   ("exclusive", cExclusive), ("sem-counter", cSemCounter), ("no-deadlock", cNoDeadlock)]
 
 def holds (i : Input) (t : Trace) : Bool := clauses.all fun c => c.2 i t
 
